@@ -90,7 +90,7 @@ PROPS = {
         "part_engines": {"C19": "tsim", "C19e": "dsim", "C19p": "hsim"},
         "level": "exploration",
         "technique": "deterministic simulation with fault injection (shuttle-controlled producer/consumer schedules over the real merge channel with hook-supplied scheduling points between every shared-state operation)",
-        "rule": "each case = one shuttle execution of a producer thread (modify: push unique id / no-op / retract; drop sender early, late or after an acknowledged sentinel) and a consumer thread (recv under block_on, recv cancelled after one poll and restarted, try_recv, early receiver drop) on one real merge_channel; scheduling points from cfg(scylla_verif) hooks between the flag loads/stores, slot critical section, notify_one, enable() and take(); schedulers: seeded random and PCT depth 2-3. Non-trivial = producer and consumer operations overlapped or a fault (cancel, retract, drop race) fired. Distinct = distinct hashes of the observed event history incl. the scheduling sites hit. Part C19e (engine A, end-to-end): a real session on 1..4 nodes (+1..3 spare nodes), 0..3 tasks calling refresh_metadata() at seeded instants while 1..14 seeded events happen: node joins / leaves / is replaced under the same address with a new host id / changes rack, each with or without the corresponding EVENT, event floods (10..73 STATUS_CHANGE/SCHEMA_CHANGE events), control-connection resets; system tables paged by 0..2 rows; oracles: every refresh_metadata() call is answered (Ok or Err) within 240 virtual s (c19.refresh_unanswered); a refresh_metadata() that returned Ok with no ring change between its start and its return has published a ClusterState whose node set equals the mock's ring at that time (c19.published_state_stale); a ring change announced by an EVENT is reflected in the published state within 30 virtual s without any explicit refresh (c19.event_not_reflected); after faults stop and one successful refresh the published ClusterState node set (host ids) equals the mock cluster's (c19.published_state_stale). Part C19p (hsim, poll-granularity driver, single thread, the harness owns the only waker): seeded sequences of <= 24 producer steps {modify(push id), modify(no-op), modify(retract), drop} and consumer steps {start recv, poll, cancel, try_recv, drop receiver}, with producer steps also injected inside a recv poll at the hook scheduling points; reference model = one pending vector; oracles c19.lost_or_dup, c19.lost_wakeup (model says pending and the last poll returned Pending => the waker was invoked; a fresh recv polled once returns Ready), c19.none_early, c19.send_error.",
+        "rule": "each case = one shuttle execution of a producer thread (modify: push unique id / no-op / retract; drop sender early, late or after an acknowledged sentinel) and a consumer thread (recv under block_on, recv cancelled after one poll and restarted, try_recv, early receiver drop) on one real merge_channel; scheduling points from cfg(scylla_verif) hooks between the flag loads/stores, slot critical section, notify_one, enable() and take(); schedulers: seeded random and PCT depth 2-3. Non-trivial = producer and consumer operations overlapped or a fault (cancel, retract, drop race) fired. Distinct = distinct hashes of the observed event history incl. the scheduling sites hit. Part C19e (engine A, end-to-end): a real session on 1..4 nodes (+1..3 spare nodes), 0..3 tasks calling refresh_metadata() at seeded instants while 1..14 seeded events happen: node joins / leaves / is replaced under the same address with a new host id / changes rack, each with or without the corresponding EVENT, event floods (10..73 STATUS_CHANGE/SCHEMA_CHANGE events), control-connection resets; system tables paged by 0..2 rows; oracles: every refresh_metadata() call is answered (Ok or Err) within 240 virtual s (c19.refresh_unanswered); a refresh_metadata() that returned Ok with no ring change between its start and its return has published a ClusterState whose node set equals the mock's ring at that time (c19.published_state_stale); once the client has completely re-read system.peers in a fetch that STARTED after a node joined (observed at the mock; with or without EVENT - nothing is demanded about when the driver fetches) and nothing else changes, the published state contains that node within 3 virtual s, or 40 s while some member is unreachable and holds publications back by connect timeout + pool back-off (c19.event_not_reflected); joining members may be unreachable (connection attempts hang until the connect timeout), which keeps the publishing worker waiting while further fetches pile up in the hand-off slot; after faults stop and one successful refresh the published ClusterState node set (host ids) equals the mock cluster's (c19.published_state_stale). Part C19p (hsim, poll-granularity driver, single thread, the harness owns the only waker): seeded sequences of <= 24 producer steps {modify(push id), modify(no-op), modify(retract), drop} and consumer steps {start recv, poll, cancel, try_recv, drop receiver}, with producer steps also injected inside a recv poll at the hook scheduling points; reference model = one pending vector; oracles c19.lost_or_dup, c19.lost_wakeup (model says pending and the last poll returned Pending => the waker was invoked; a fresh recv polled once returns Ready), c19.none_early, c19.send_error.",
         "assumptions": [
             "sequential consistency per scheduling point; tokio::sync::Notify is real code but its internals have no extra scheduling points",
             "oracles: concatenation of received values == merged-and-not-retracted ids in order, each once; None only after the sender is gone and the last value taken; a consumer parked forever while a value is pending or the sender is gone = shuttle deadlock = lost wake-up; modify errs when the receiver's drop completed before the call and succeeds when the drop had not begun when it returned (the racing window is not judged)",
